@@ -23,5 +23,9 @@ FirstFail(checks, k) == IF k > Len(checks) THEN ""
                         ELSE IF checks[k][1] THEN FirstFail(checks, k + 1) ELSE checks[k][2]
 Checks(class, checks) == LET f == FirstFail(checks, 1) IN V(f = "", class, f)
 
+\* TLC evaluates operator arguments lazily but builds tuples eagerly: `pre` holds the conditions that make
+\* the rest evaluable at all (no panic, the expected number of steps); `rest` is only looked at when they hold.
+Guarded(class, pre, rest) == LET f == FirstFail(pre, 1) IN IF f # "" THEN V(FALSE, class, f) ELSE Checks(class, rest)
+
 HasField(rec, f) == f \in DOMAIN rec
 =============================================================================
